@@ -266,6 +266,13 @@ func genTxtarWrite(g *gen) {
 		g.fail("txtar.Write: MkdirAll permission is not a constant")
 	}
 
+	// ---- the descriptor discipline of the loop body
+	genWriteShape(g, fd)
+
+	// ---- cmd/txtar-x and the flags of the two commands
+	genTxtarX(g)
+	genCmdFlags(g)
+
 	// ---- cmd/txtar-c
 	mainFn := g.funcDecl("cmd/txtar-c", "main")
 	if mainFn == nil || mainFn.Body == nil {
@@ -316,6 +323,418 @@ func genTxtarWrite(g *gen) {
 		g.emitBytesLit("savedir_unquote_prefix", "cmd/txtar-c: comment line for a quoted file, text before the file name", unqPre)
 		g.emitBytesLit("savedir_unquote_suffix", "cmd/txtar-c: comment line for a quoted file, text after the file name", unqSuf)
 	}
+}
+
+// twContainsCall reports whether n contains the call recv.method(...).
+func twContainsCall(n ast.Node, recv, method string) (found *ast.CallExpr) {
+	ast.Inspect(n, func(x ast.Node) bool {
+		if c, ok := x.(*ast.CallExpr); ok && found == nil {
+			if sel, ok := c.Fun.(*ast.SelectorExpr); ok && twIdent(sel.X) == recv && sel.Sel.Name == method {
+				found = c
+			}
+		}
+		return found == nil
+	})
+	return
+}
+
+func twContainsReturn(n ast.Node) bool {
+	found := false
+	ast.Inspect(n, func(x ast.Node) bool {
+		if _, ok := x.(*ast.ReturnStmt); ok {
+			found = true
+		}
+		if _, ok := x.(*ast.FuncLit); ok {
+			return false
+		}
+		return !found
+	})
+	return found
+}
+
+// genWriteShape reads how the loop body of txtar.Write treats the descriptor it opens:
+//
+//	write_close_deferred       the Close call sits in a defer statement (it then runs when
+//	                           Write returns, not at the end of the iteration)
+//	write_close_before_return  no return statement lies between the Write call and the Close
+//	                           call (a failed write still closes the file)
+//	write_close_error_returned the error of Close is returned
+//
+// and checks that the data written is the entry's Data, in one Write call.
+func genWriteShape(g *gen, fd *ast.FuncDecl) {
+	var loop *ast.RangeStmt
+	ast.Inspect(fd.Body, func(n ast.Node) bool {
+		if r, ok := n.(*ast.RangeStmt); ok && loop == nil {
+			loop = r
+		}
+		return loop == nil
+	})
+	if loop == nil {
+		g.fail("txtar.Write: no range loop over the files any more")
+		return
+	}
+	body := loop.Body.List
+	outVar := ""
+	iOpen, iWrite, iClose := -1, -1, -1
+	for i, st := range body {
+		if as, ok := st.(*ast.AssignStmt); ok && len(as.Rhs) == 1 && twCallName(as.Rhs[0]) == "os.OpenFile" && len(as.Lhs) >= 1 {
+			outVar, iOpen = twIdent(as.Lhs[0]), i
+		}
+	}
+	if iOpen < 0 || outVar == "" || outVar == "_" {
+		g.fail("txtar.Write: the result of os.OpenFile is not assigned to a variable in the loop body")
+		return
+	}
+	deferred := false
+	nWrite, nClose := 0, 0
+	for i, st := range body {
+		if i <= iOpen {
+			continue
+		}
+		if c := twContainsCall(st, outVar, "Write"); c != nil {
+			nWrite++
+			if iWrite < 0 {
+				iWrite = i
+			}
+			ok := false
+			if len(c.Args) == 1 {
+				if sel, isSel := c.Args[0].(*ast.SelectorExpr); isSel && sel.Sel.Name == "Data" {
+					ok = true
+				}
+			}
+			if !ok {
+				g.fail("txtar.Write: the argument of %s.Write is not the entry's Data", outVar)
+			}
+		}
+		if c := twContainsCall(st, outVar, "Close"); c != nil {
+			nClose++
+			if iClose < 0 {
+				iClose = i
+			}
+			if _, isDefer := st.(*ast.DeferStmt); isDefer {
+				deferred = true
+			}
+		}
+	}
+	if nWrite != 1 {
+		g.fail("txtar.Write: %d statements call %s.Write; the model has exactly one write of the whole data", nWrite, outVar)
+		return
+	}
+	if nClose != 1 {
+		g.fail("txtar.Write: %d statements call %s.Close; the model has exactly one close per opened file", nClose, outVar)
+		return
+	}
+	// is some other method of the file used (Sync, Truncate, ...)?  Not modelled.
+	for i, st := range body {
+		if i <= iOpen {
+			continue
+		}
+		ast.Inspect(st, func(x ast.Node) bool {
+			if c, ok := x.(*ast.CallExpr); ok {
+				if sel, ok := c.Fun.(*ast.SelectorExpr); ok && twIdent(sel.X) == outVar && sel.Sel.Name != "Write" && sel.Sel.Name != "Close" {
+					g.fail("txtar.Write: %s.%s is not modelled", outVar, sel.Sel.Name)
+				}
+			}
+			return true
+		})
+	}
+	beforeReturn := true
+	if !deferred {
+		if iClose < iWrite {
+			g.fail("txtar.Write: the file is closed before it is written")
+			return
+		}
+		for i := iWrite; i < iClose; i++ {
+			if twContainsReturn(body[i]) {
+				beforeReturn = false
+			}
+		}
+		// a Close inside a conditional does not close on every path
+		switch body[iClose].(type) {
+		case *ast.AssignStmt, *ast.ExprStmt:
+		case *ast.IfStmt:
+			ifs := body[iClose].(*ast.IfStmt)
+			if ifs.Init == nil || twContainsCall(ifs.Init, outVar, "Close") == nil {
+				g.fail("txtar.Write: %s.Close is called conditionally", outVar)
+			}
+		case *ast.ReturnStmt:
+		default:
+			g.fail("txtar.Write: %s.Close is called in a statement of an unknown shape", outVar)
+		}
+	}
+	// is the error of Close returned?
+	cerrReturned := false
+	if !deferred {
+		switch st := body[iClose].(type) {
+		case *ast.ReturnStmt:
+			cerrReturned = true
+		case *ast.IfStmt:
+			cerrReturned = twContainsReturn(st.Body)
+		case *ast.AssignStmt:
+			if len(st.Lhs) == 1 {
+				v := twIdent(st.Lhs[0])
+				for i := iClose + 1; i < len(body); i++ {
+					ast.Inspect(body[i], func(x ast.Node) bool {
+						if r, ok := x.(*ast.ReturnStmt); ok && len(r.Results) == 1 && twIdent(r.Results[0]) == v && v != "_" && v != "" {
+							cerrReturned = true
+						}
+						return true
+					})
+				}
+			}
+		}
+	}
+	fmt.Fprintf(&g.buf, "(* txtar.Write, the descriptor opened for an entry: `%s.Close()` is %s *)\n", outVar,
+		map[bool]string{true: "DEFERRED to the return of Write", false: "called in the iteration that opened it"}[deferred])
+	fmt.Fprintf(&g.buf, "Definition write_close_deferred : bool := %s.\n\n", coqBool(deferred))
+	fmt.Fprintf(&g.buf, "(* no return statement between the Write call and the Close call *)\nDefinition write_close_before_return : bool := %s.\n\n", coqBool(beforeReturn))
+	fmt.Fprintf(&g.buf, "(* the error of Close is returned by Write *)\nDefinition write_close_error_returned : bool := %s.\n\n", coqBool(cerrReturned))
+}
+
+// genTxtarX reads how cmd/txtar-x obtains the archive: from standard input through
+// io.ReadAll(os.Stdin) (extract_stdin_limit = None) or through io.ReadAll(io.LimitReader(
+// os.Stdin, n)) (Some n), parsed by txtar.Parse; or from the file named by the argument
+// through txtar.ParseFile, which must be os.ReadFile + Parse.
+func genTxtarX(g *gen) {
+	mainFn := g.funcDecl("cmd/txtar-x", "main")
+	if mainFn == nil || mainFn.Body == nil {
+		g.fail("cmd/txtar-x: no main function")
+		return
+	}
+	var readAll *ast.CallExpr
+	dataVar := ""
+	nReadAll := 0
+	parseOfData, parseFileArg0, writeCall := false, false, false
+	ast.Inspect(mainFn.Body, func(n ast.Node) bool {
+		switch s := n.(type) {
+		case *ast.AssignStmt:
+			if len(s.Rhs) == 1 && twCallName(s.Rhs[0]) == "io.ReadAll" && len(s.Lhs) >= 1 {
+				readAll = s.Rhs[0].(*ast.CallExpr)
+				dataVar = twIdent(s.Lhs[0])
+				nReadAll++
+			}
+		case *ast.CallExpr:
+			switch twCallName(s) {
+			case "txtar.Parse":
+				if len(s.Args) == 1 && dataVar != "" && twIdent(s.Args[0]) == dataVar {
+					parseOfData = true
+				} else {
+					g.fail("cmd/txtar-x: txtar.Parse is not applied to the bytes read from standard input as they are")
+				}
+			case "txtar.ParseFile":
+				if len(s.Args) == 1 && twCallName(s.Args[0]) == "flag.Arg" {
+					if a := s.Args[0].(*ast.CallExpr).Args; len(a) == 1 {
+						if l, ok := a[0].(*ast.BasicLit); ok && l.Value == "0" {
+							parseFileArg0 = true
+						}
+					}
+				}
+			case "txtar.Write":
+				if len(s.Args) == 2 {
+					if st, ok := s.Args[1].(*ast.StarExpr); ok && twIdent(st.X) == "extractDir" {
+						writeCall = true
+					}
+				}
+			}
+		}
+		return true
+	})
+	if nReadAll != 1 || readAll == nil || len(readAll.Args) != 1 {
+		g.fail("cmd/txtar-x: standard input is not read by exactly one io.ReadAll call")
+		return
+	}
+	limit := "None"
+	limitText := "io.ReadAll(os.Stdin): everything"
+	arg := readAll.Args[0]
+	isStdin := func(e ast.Expr) bool {
+		sel, ok := e.(*ast.SelectorExpr)
+		return ok && twIdent(sel.X) == "os" && sel.Sel.Name == "Stdin"
+	}
+	switch {
+	case isStdin(arg):
+	case twCallName(arg) == "io.LimitReader":
+		a := arg.(*ast.CallExpr).Args
+		if len(a) != 2 || !isStdin(a[0]) {
+			g.fail("cmd/txtar-x: io.LimitReader is not applied to os.Stdin")
+			return
+		}
+		v, ok := g.constVal("cmd/txtar-x", a[1])
+		if !ok {
+			g.fail("cmd/txtar-x: the limit of io.LimitReader is not a constant")
+			return
+		}
+		limit = fmt.Sprintf("(Some (%s)%%N)", v.ExactString())
+		limitText = "io.ReadAll(io.LimitReader(os.Stdin, " + v.ExactString() + ")): at most that many bytes"
+	default:
+		g.fail("cmd/txtar-x: io.ReadAll is applied to something other than os.Stdin or io.LimitReader(os.Stdin, n)")
+		return
+	}
+	if !parseOfData {
+		g.fail("cmd/txtar-x: no txtar.Parse(<bytes read from standard input>) call")
+	}
+	if !parseFileArg0 {
+		g.fail("cmd/txtar-x: no txtar.ParseFile(flag.Arg(0)) call")
+	}
+	if !writeCall {
+		g.fail("cmd/txtar-x: no txtar.Write(a, *extractDir) call")
+	}
+	fmt.Fprintf(&g.buf, "(* cmd/txtar-x reads standard input with %s *)\nDefinition extract_stdin_limit : option N := %s.\n\n", limitText, limit)
+
+	// txtar.ParseFile = os.ReadFile + Parse
+	pf := g.funcDecl("txtar", "ParseFile")
+	whole := false
+	if pf != nil && pf.Body != nil && pf.Type.Params != nil && len(pf.Type.Params.List) == 1 && len(pf.Type.Params.List[0].Names) == 1 {
+		param := pf.Type.Params.List[0].Names[0].Name
+		v := ""
+		nOS := 0
+		ast.Inspect(pf.Body, func(n ast.Node) bool {
+			switch s := n.(type) {
+			case *ast.AssignStmt:
+				if len(s.Rhs) == 1 && twCallName(s.Rhs[0]) == "os.ReadFile" {
+					if a := s.Rhs[0].(*ast.CallExpr).Args; len(a) == 1 && twIdent(a[0]) == param && len(s.Lhs) >= 1 {
+						v = twIdent(s.Lhs[0])
+					}
+				}
+			case *ast.CallExpr:
+				if strings.HasPrefix(twCallName(s), "os.") || strings.HasPrefix(twCallName(s), "io.") {
+					nOS++
+				}
+				if twCallName(s) == "Parse" && len(s.Args) == 1 && v != "" && twIdent(s.Args[0]) == v {
+					whole = true
+				}
+			}
+			return true
+		})
+		if nOS != 1 {
+			whole = false
+		}
+	}
+	if !whole {
+		g.fail("txtar.ParseFile is no longer `data, err := os.ReadFile(file); ...; Parse(data)`")
+	}
+	fmt.Fprintf(&g.buf, "(* txtar.ParseFile(file) is Parse of everything os.ReadFile(file) returns *)\nDefinition parsefile_reads_whole : bool := %s.\n\n", coqBool(whole))
+
+	// flag.NArg() tests of main: `> n` -> usage; `== 0` -> standard input
+	maxArgs, stdinWhen := int64(-1), int64(-1)
+	ast.Inspect(mainFn.Body, func(n ast.Node) bool {
+		ifs, ok := n.(*ast.IfStmt)
+		if !ok {
+			return true
+		}
+		be, ok := ifs.Cond.(*ast.BinaryExpr)
+		if !ok || twCallName(be.X) != "flag.NArg" {
+			return true
+		}
+		lit, ok := be.Y.(*ast.BasicLit)
+		if !ok {
+			return true
+		}
+		v, _ := strconv.ParseInt(lit.Value, 10, 64)
+		callsUsage := false
+		ast.Inspect(ifs.Body, func(x ast.Node) bool {
+			if twCallName2(x) == "usage" {
+				callsUsage = true
+			}
+			return true
+		})
+		switch {
+		case be.Op == token.GTR && callsUsage:
+			maxArgs = v
+		case be.Op == token.EQL && !callsUsage && twContainsCallName(ifs.Body, "io.ReadAll"):
+			stdinWhen = v
+		}
+		return true
+	})
+	if maxArgs < 0 || stdinWhen != 0 {
+		g.fail("cmd/txtar-x: main no longer has `if flag.NArg() > n { usage() }` and `if flag.NArg() == 0 { ...io.ReadAll... }`")
+		return
+	}
+	g.emitZLitN("extract_max_args", "cmd/txtar-x: more positional arguments than this is a usage error; none means standard input", maxArgs)
+}
+
+func twCallName2(n ast.Node) string {
+	if e, ok := n.(ast.Expr); ok {
+		return twCallName(e)
+	}
+	return ""
+}
+
+func twContainsCallName(n ast.Node, name string) bool {
+	found := false
+	ast.Inspect(n, func(x ast.Node) bool {
+		if twCallName2(x) == name {
+			found = true
+		}
+		return !found
+	})
+	return found
+}
+
+func (g *gen) emitZLitN(coqName, comment string, v int64) {
+	fmt.Fprintf(&g.buf, "(* %s *)\nDefinition %s : N := (%d)%%N.\n\n", comment, coqName, v)
+}
+
+// genCmdFlags reads the flag definitions of the two commands (package-level
+// `x = flag.String(name, default, ...)` / `flag.Bool(name, false, ...)`) and the
+// positional-argument test of txtar-c.
+func genCmdFlags(g *gen) {
+	type fl struct {
+		kind, name, def string
+	}
+	find := func(dir, varName string) (fl, bool) {
+		e := g.valueExpr(dir, varName)
+		c, ok := e.(*ast.CallExpr)
+		if !ok || len(c.Args) < 2 {
+			return fl{}, false
+		}
+		name, ok1 := twStr(c.Args[0])
+		switch twCallName(c) {
+		case "flag.String":
+			def, ok2 := twStr(c.Args[1])
+			return fl{"string", name, def}, ok1 && ok2
+		case "flag.Bool":
+			if twIdent(c.Args[1]) != "false" {
+				return fl{}, false
+			}
+			return fl{"bool", name, "false"}, ok1
+		}
+		return fl{}, false
+	}
+	if f, ok := find("cmd/txtar-x", "extractDir"); ok && f.kind == "string" {
+		g.emitBytesLit("extract_dir_flag", "cmd/txtar-x: name of the string flag that gives the directory", f.name)
+		g.emitBytesLit("extract_dir_default", "cmd/txtar-x: its default", f.def)
+	} else {
+		g.fail("cmd/txtar-x: no `extractDir = flag.String(<name>, <default>, ...)` any more")
+	}
+	if f, ok := find("cmd/txtar-c", "quoteFlag"); ok && f.kind == "bool" {
+		g.emitBytesLit("savedir_quote_flag", "cmd/txtar-c: name of the boolean flag (default false) that switches quoting on", f.name)
+	} else {
+		g.fail("cmd/txtar-c: no `quoteFlag = flag.Bool(<name>, false, ...)` any more")
+	}
+	if f, ok := find("cmd/txtar-c", "allFlag"); ok && f.kind == "bool" {
+		g.emitBytesLit("savedir_all_flag", "cmd/txtar-c: name of the boolean flag (default false) that includes dot files", f.name)
+	} else {
+		g.fail("cmd/txtar-c: no `allFlag = flag.Bool(<name>, false, ...)` any more")
+	}
+	mainFn := g.funcDecl("cmd/txtar-c", "main")
+	nargs := int64(-1)
+	if mainFn != nil && mainFn.Body != nil {
+		ast.Inspect(mainFn.Body, func(n ast.Node) bool {
+			if ifs, ok := n.(*ast.IfStmt); ok {
+				if be, ok := ifs.Cond.(*ast.BinaryExpr); ok && be.Op == token.NEQ && twCallName(be.X) == "flag.NArg" {
+					if lit, ok := be.Y.(*ast.BasicLit); ok && twContainsCallName(ifs.Body, "usage") {
+						nargs, _ = strconv.ParseInt(lit.Value, 10, 64)
+					}
+				}
+			}
+			return true
+		})
+	}
+	if nargs < 0 {
+		g.fail("cmd/txtar-c: main no longer has `if flag.NArg() != n { usage() }`")
+		return
+	}
+	g.emitZLitN("savedir_nargs", "cmd/txtar-c: exactly this many positional arguments (the directory)", nargs)
 }
 
 func exprText(e ast.Expr) string {
